@@ -90,7 +90,7 @@ def main():
             na.append({"property_id": i, "reason": PENDING_REASON})
     m = {
         "version": 1,
-        "setup_cmd": "cd lean && lake build " + " ".join("IV.Props.%s" % i for i in sorted(CLAIMED)),
+        "setup_cmd": "cd lean && lake build IV.Model.Proto " + " ".join("IV.Props.%s" % i for i in sorted(CLAIMED)),
         "hooks": {
             "guard": "INSIGHTS_CORE_VERIF",
             "enable": "no source hooks: the harness observes the implementation from outside (in-process calls, observers, scratch directories); the variable is reserved and unused",
